@@ -25,106 +25,11 @@ every generated consistent history (op `inv`), and `Ledger.balance` is compared 
 namespace TxStore.C01
 open TxStore KMap
 
-theorem balance_eq (s : Store) (now : Nat) (mat m sy : Int) :
-    balance s now mat m sy =
-      (s.unspent.foldlM (balPass1 s now) s.minedBalance >>= fun bal =>
-        ((s.blocks.reverse.takeWhile fun p => !decide ((p.1 : Int) < sy - (if mat > m then mat else m))).foldlM
-          (fun bal (p : Nat × BlockRec) => p.2.txs.foldlM (balPass2Tx s now m sy mat ⟨p.1, p.2.hash⟩) bal) bal) >>= fun bal =>
-        if m == 0 then pure (s.unminedCredits.foldl (balPass3 s now) bal) else pure bal) := by
-  rfl
-
-theorem blockCredits_height {s : Store} {h : Nat} {br : BlockRec} {c : CInfo} (hc : c ∈ blockCredits s h br) :
-    c.key.block.height = h := by
-  unfold blockCredits at hc
-  rw [List.mem_flatMap] at hc
-  obtain ⟨tx, _, hc⟩ := hc
-  unfold txCredits at hc
-  split at hc
-  · cases hc
-  · rw [List.mem_filterMap] at hc
-    obtain ⟨i, _, hi⟩ := hc
-    obtain ⟨_, hk, _⟩ := creditInfo_some hi
-    rw [hk]
-
-theorem g2_zero_below (s : Store) (now : Nat) (mat m sy : Int) (c : CInfo)
-    (h : (c.key.block.height : Int) < sy - (if mat > m then mat else m)) : g2 s now m sy mat c = 0 := by
-  unfold g2 tooYoung
-  have h1 : ¬ (sy - (c.key.block.height : Int) + 1 < m) := by split at h <;> omega
-  have h2 : ¬ (sy - (c.key.block.height : Int) + 1 < mat) := by split at h <;> omega
-  simp [h1, h2]
-
 /-- **Balance = the C01 sentence on the store's own records**, for every store satisfying `Inv`, every instant,
-every coinbase maturity, every `minConf` and every `syncHeight` (negative and below-tip values included). -/
+every coinbase maturity, every `minConf` and every `syncHeight` (negative and below-tip values included).
+(Proof: `balance_eq_storeTruth` in Lemmas/Balance.lean.) -/
 theorem C01_balance_partial (s : Store) (hinv : Inv s) (now : Nat) (mat m sy : Int) :
-    balance s now mat m sy = .ok (storeTruth s now mat m sy) := by
-  rw [balance_eq]
-  -- pass 1
-  have hidx : ∀ e ∈ s.unspent, (creditInfo s ⟨e.1.hash, e.2, e.1.index⟩).isSome := by
-    intro e he
-    apply hinv.indexed
-    unfold unspentInfos
-    exact List.mem_map.mpr ⟨e, he, rfl⟩
-  rw [pass1_fold s now s.unspent s.minedBalance hidx, bind_ok]
-  -- pass 2
-  have hrec : ∀ p ∈ (s.blocks.reverse.takeWhile fun p => !decide ((p.1 : Int) < sy - (if mat > m then mat else m))),
-      ∀ tx ∈ p.2.txs, (s.txrecs.find? ⟨tx, ⟨p.1, p.2.hash⟩⟩).isSome := by
-    intro p hp
-    have : p ∈ s.blocks := by
-      have h1 := (List.takeWhile_sublist _).subset hp
-      simpa using h1
-    exact hinv.recorded p this
-  rw [pass2_blocks s now m sy mat _ _ hrec, bind_ok]
-  -- the three sums over the mined credits without a mined spender
-  have hU : (s.unspent.filterMap fun e => creditInfo s ⟨e.1.hash, e.2, e.1.index⟩) = (unspentInfos s).filterMap id := by
-    unfold unspentInfos
-    rw [List.filterMap_map]
-    rfl
-  have hg1z : ∀ c, nz c = false → g1 s now c = 0 := by
-    intro c hc
-    unfold nz at hc
-    have : c.val.amount = 0 := by simpa using hc
-    unfold g1; split <;> simp [this]
-  have hA : ((s.unspent.filterMap fun e => creditInfo s ⟨e.1.hash, e.2, e.1.index⟩).map (g1 s now)).sum =
-      ((minedUnspent s).map (g1 s now)).sum := by
-    rw [hU, ← sum_filter_zero nz (g1 s now) hg1z, perm_map_sum (g1 s now) hinv.index,
-      sum_filter_zero nz (g1 s now) hg1z]
-  have hB : ((s.blocks.reverse.takeWhile fun p => !decide ((p.1 : Int) < sy - (if mat > m then mat else m))).map
-      (S2 s now m sy mat)).sum = ((minedUnspent s).map (g2 s now m sy mat)).sum := by
-    rw [sum_window s.blocks (S2 s now m sy mat) _ hinv.sorted]
-    · unfold minedUnspent minedCredits
-      rw [sum_flatMap_filter]
-      rfl
-    · intro p _ hlt
-      unfold S2
-      apply sum_zero_of_forall
-      intro c hc
-      have hc' := (List.mem_filter.mp hc).1
-      have hh := blockCredits_height hc'
-      apply g2_zero_below
-      rw [hh]; exact hlt
-  have hC : s.minedBalance = ((minedUnspent s).map fun c => c.val.amount).sum := hinv.counter
-  have hpt : ∀ c : CInfo, c.val.amount - g1 s now c - g2 s now m sy mat c =
-      (if countsMined s now m sy mat c then c.val.amount else 0) := by
-    intro c
-    unfold g1 g2 countsMined
-    by_cases hl : isLocked s c.key.outPoint now = true
-    · simp [hl]
-    · by_cases hs : spentByUnmined s c.key.outPoint = true
-      · simp [hl, hs]
-      · by_cases hy : tooYoung m sy mat c = true <;> simp [hl, hs, hy]
-  have h3 := sum_three (fun c : CInfo => c.val.amount) (g1 s now) (g2 s now m sy mat)
-    (fun c => if countsMined s now m sy mat c then c.val.amount else 0) hpt (minedUnspent s)
-  unfold storeTruth
-  rw [hA, hB, hC]
-  by_cases hm : (m == 0) = true
-  · simp only [hm, if_true, pure_eq, pass3_fold]
-    congr 1
-    have : (s.unminedCredits.map (g3 s now)) = s.unminedCredits.map fun e => if countsUnmined s now e then e.2.amount else 0 := rfl
-    rw [this]
-    omega
-  · simp only [hm, if_false, pure_eq, Bool.false_eq_true]
-    congr 1
-    omega
+    balance s now mat m sy = .ok (storeTruth s now mat m sy) := balance_eq_storeTruth s hinv now mat m sy
 
 /-! ### `UnspentOutputs` -/
 
